@@ -45,3 +45,22 @@ Example C14_example :
   run_recv_v2 fc_empty (fragment false 0 0 [97;98;99;100;101;102;103;104;105;106;107;108;109;110;111;112;113;114;115;116;117;118;119;120] 21)
   = (fc_empty, [[97;98;99;100;101;102;103;104;105;106;107;108;109;110;111;112;113;114;115;116;117;118;119;120]]).
 Proof. vm_compute; reflexivity. Qed.
+
+(* the same for the version 3 wire format (23-byte prefix with the instance tags): the pieces, delivered in order to a
+   version 3 conversation they are addressed to (receiver tag ours or none; sender tag legal and not another instance
+   than the one the conversation is bound to), reassemble to exactly the original, once, and bind the conversation to
+   the sender (Bytes/FragV3.v mirrors otrV3.parseFragmentPrefix + verifyInstanceTags in front of the same reassembly) *)
+From OTR Require Import Gen.Consts Bytes.FragV3 Bytes.FragV3Proofs.
+Theorem C14_frag_roundtrip_v3_partial : forall our their its itr data fraglen,
+  addressed our their its itr ->
+  no_comma data -> fraglen < lenN data -> (hdr_len true + 2 <= N.to_nat fraglen)%nat ->
+  lenN (fragment true its itr data fraglen) <= 65535 ->
+  run_recv_v3 our (fc_empty, their) (fragment true its itr data fraglen) = ((fc_empty, its), [data]).
+Proof. exact frag_roundtrip_v3. Qed.
+Print Assumptions C14_frag_roundtrip_v3_partial.
+
+Example C14_example_v3 :
+  let data := map N.of_nat (seq 97 26 ++ seq 65 26) in
+  run_recv_v3 517 (fc_empty, 0) (fragment true 769 517 data 40) = ((fc_empty, 769), [data]) /\
+  run_recv_v3 517 (fc_empty, 770) (fragment true 769 517 data 40) = ((fc_empty, 770), []).
+Proof. vm_compute; auto. Qed.
